@@ -61,7 +61,7 @@ def factsWith (firstMatch : String) (xmlSpace : List (String × String)) : List 
    "if (hasPreserveOrStripSpaceElements() == true && theNode.isWhitespace() == true) { return internalShouldStripSourceNode(theNode); } return false;")
 ]
 
-/-- the code as the model transcribes it (with proposed/C13-xml-space-preserve.diff applied) -/
+/-- the code as the model transcribes it (the `xml:space` walk is /repo 9b9e6f3) -/
 def expectedFacts : List (String × String) :=
   factsWith
     "if (theTester(*theElement) != XPath::eMatchScoreNone) { return theTester.getType() == XalanSpaceNodeTester::eStrip && isXMLSpacePreserved(theElement) == false; }"
@@ -71,14 +71,5 @@ def expectedFacts : List (String × String) :=
       "if (theSpaceAttribute != 0) { return equals( theSpaceAttribute->getNodeValue(), Constants::ATTRVAL_PRESERVE); }"),
      ("xmlSpace.ascend", "theElement = theElement->getParentNode();"),
      ("xmlSpace.default", "return false;")]
-
-/-- the tree before that repair: no `xml:space` walk at all (known finding C13-xml-space-preserve-ignored; the
-model then differs from the code exactly in `Tag.preserve` being ignored, which the `strip` stream reports under
-that finding's key and nothing else) -/
-def expectedFactsBeforeXmlSpaceFix : List (String × String) :=
-  factsWith
-    "if (theTester(*theElement) != XPath::eMatchScoreNone) { return theTester.getType() == XalanSpaceNodeTester::eStrip; }"
-    [("xmlSpace.loop", "absent"), ("xmlSpace.lookup", "absent"), ("xmlSpace.decide", "absent"),
-     ("xmlSpace.ascend", "absent"), ("xmlSpace.default", "absent")]
 
 end XalanModel.C13
